@@ -227,3 +227,11 @@ package object
 //@ ensures[C11.override.set] value != nil && name != "__name__" && old(haskey(m.builtins, name)) ==> haskey(m.builtins, name) && m.builtins[name] == value
 //@ ensures[C11.override.others] forallA(k, string, k != name ==> haskey(m.builtins, k) == old(haskey(m.builtins, k)) && haskey(m.globalsIndex, k) == old(haskey(m.globalsIndex, k)) && m.builtins[k] == old(m.builtins[k]))
 //@ ensures[C11.override.noadd] !old(mhasattr(m, name)) ==> !mhasattr(m, name)
+
+// ---- C10: a spawned call gets its own copy of the argument values ------------------------------------------------
+// Every call of the spawn function passes a freshly allocated slice that holds exactly the caller's argument
+// values (so later writes to the caller's slice cannot reach the spawned call).
+//@ func Spawn
+//@ props C10
+//@ dyncall[C10.spawn.argscopy] SpawnFunc: fresh(arg2) && len(arg2) == len(args) && forall(k, 0, len(args), arg2[k] == args[k])
+//@ dyncall[C10.spawn.ctx] SpawnFunc: arg0 == ctx
